@@ -137,9 +137,10 @@ pub fn cases(f: &mut dyn FnMut(Value) -> bool) {
     let big = [usize::MAX, usize::MAX / 2 + 1];
     for cap in ["exact", "spare"] {
         for (c, r) in shapes(3) {
-            for op in ["insert_row", "insert_col"] {
-                let (n_lines, line_len) = if op == "insert_row" { (r, c) } else { (c, r) };
-                for index in 0..=n_lines {
+            for op in ["insert_row", "insert_col", "push_row", "push_col"] {
+                let (n_lines, line_len) = if op.ends_with("row") { (r, c) } else { (c, r) };
+                let first_index = if op.starts_with("push") { n_lines } else { 0 };
+                for index in first_index..=n_lines {
                     let haves: Vec<usize> = if n_lines == 0 { (0..=3).collect() } else { (0..=line_len + 1).collect() };
                     for &have in &haves {
                         let mut reps: Vec<usize> = if n_lines == 0 { (0..=4).collect() } else { (0..=line_len + 1).collect() };
@@ -352,6 +353,8 @@ pub fn run(case: &Value) -> Res {
             let _ = catch(|| match op {
                 "insert_row" => t.insert_row(index, it),
                 "insert_col" => t.insert_col(index, it),
+                "push_row" => t.push_row(it),
+                "push_col" => t.push_col(it),
                 _ => panic!("unknown op {}", op),
             });
             post_check(op, t, true)
